@@ -28,7 +28,7 @@ RESP = "nauyaca.protocol.response:GeminiResponse"
 CT, FUT = "model:ctransport", "model:future"
 SV = z3.StringVal
 CRLF = SV("\r\n")
-MAXBODY = 10 * 1024 * 1024
+MAXBODY = z3.Int("MAX_RESPONSE_BODY_SIZE")   # the size cap generalised to any value >= 1 (the source says 10 MiB): counter-models stay small
 
 
 class ClientEnv:
@@ -38,6 +38,12 @@ class ClientEnv:
         from pyvc import urlmodel
         urlmodel.install(E)      # str.lower() lemmas (delimiter-preserving)
         self.install()
+
+    def generalise_cap(self, ctx):
+        if not hasattr(self.E, "constant_overrides"):
+            self.E.constant_overrides = {}
+        self.E.constant_overrides[("nauyaca.protocol.constants", "MAX_RESPONSE_BODY_SIZE")] = VInt(MAXBODY)
+        ctx.assume(MAXBODY >= 1)
 
     def mk_future(self, ctx, fresh=False):
         f = ctx.alloc(FUT, {"g_done": VBool(False) if fresh else VBool(z3.Bool("future.g_done"))})
@@ -49,6 +55,7 @@ class ClientEnv:
         return ctx.alloc(CT, {"g_out": VBytes(SV("") if fresh else z3.String("ct.g_out")), "g_closed": VBool(False) if fresh else VBool(z3.Bool("ct.g_closed"))})
 
     def mk_proto(self, ctx, cls, state="any", transport="present"):
+        self.generalise_cap(ctx)
         fut = self.mk_future(ctx, fresh=(state == "fresh"))
         t = self.mk_transport(ctx, fresh=(state == "fresh"))
         base = {"response_future": fut, "send_on_connect": VBool(z3.Bool("self.send_on_connect"))}
